@@ -147,6 +147,15 @@ class C13(object):
             # --- the callers: Equation / EquationBlock renaming, also with Term objects shared between equations
             if i % 5 == 0:
                 self.block_rename(rng, rec, lk, kind)
+            if i % 10 == 3:
+                # targeted: an alias named like a number suffix right next to literals that END in that suffix
+                al = rng.choice(['e5', 'E5', 'e1', 'e10', 'E2', 'j', 'J'])
+                other = rng.choice(['x', 'y', 'xe5', 'e5x', 'e5_1'])
+                toks = [('NUMBER', '2.' + al), ('OP', '*'), ('NAME', al), ('OP', '+'), ('NUMBER', '1.' + al),
+                        ('OP', '-'), ('NAME', other), ('OP', '*'), ('NUMBER', '3.'), ('OP', '/'), ('NAME', al)]
+                txt = G.render(rng, toks, style=rng.choice(['tight', 'spaced']))
+                self.reduction_rename(rng, rec, txt, {'tokens': toks}, [al])
+                rec.count('reduction_rename.targeted')
             if i % 4 == 1 and '=' not in text and '#' not in text and names and \
                     not (set(g['features']) & {'lag', 'keyword', 'string', 'attr'}):
                 self.reduction_rename(rng, rec, text, g, names)
